@@ -78,7 +78,8 @@ Definition round_to_f16_bits (bits : Z) : Z :=
   let exp := Z.land (Z.shiftr bits 23) 255 - 127 in
   let mant := Z.land bits 8388607 in
   if exp =? 128 then (if negb (mant =? 0) then NAN32 else if negb (sign =? 0) then 4286578688 else 2139095040)
-  else if exp <? -24 then (if negb (sign =? 0) then 2147483648 else 0)     (* "too small for f16": +-0 *)
+  else if exp <? -24 then 0     (* "too small for f16": the Go source says `return -0.0` for negative inputs, but the Go
+                                   constant -0.0 IS +0.0, so both branches return +0 *)
   else if 15 <? exp then (if negb (sign =? 0) then 4286578688 else 2139095040)
   else
     let mant1 := mant + 4096 in                                              (* mant += 1 << 12 *)
